@@ -48,6 +48,21 @@ class GrammarModel:
         self._g = g
         self._regex: dict[str, str] | None = None
 
+    def expand_inlined(self, text: str, depth: int = 4) -> str:
+        """canonical EBNF text with the references to inlined helper rules (`_name`) replaced by their definition"""
+        import re
+
+        def repl(m):
+            r = self.rules.get(m.group(0))
+            return "(" + r["shape"] + ")" if r is not None else m.group(0)
+
+        for _ in range(depth):
+            new = re.sub(r"(?<![\w\"])_[a-z][a-z0-9_]*\b", repl, text)
+            if new == text:
+                break
+            text = new
+        return text
+
     def term_regex(self, name: str) -> str | None:
         """the regular expression lark compiles a terminal to (its definition with every referenced terminal expanded)"""
         if self._regex is None:
